@@ -52,6 +52,9 @@ class Ctx:
         self.choices = []     # [(value, n)]
         self.n = 0
         self.axioms = []      # lazily instantiated axioms about UF atoms (z3 bools)
+        self.closed_ids = set()   # atoms of constant arguments (sqrt(2), ...)
+        self.decided = {}     # z3 ast id of a branch condition -> decision on this path
+        self.implied = []     # conditions found implied by the path condition (not part of it)
 
     def pc(self):
         return [c if v else z3.Not(c) for v, c in self.path]
@@ -205,10 +208,14 @@ def decide(t, sh=None):
         return True
     if z3.is_false(t):
         return False
+    tid = t.get_id()
+    if tid in C.decided:
+        return C.decided[tid]
     k = len(C.path)
     if k < len(C.prefix):
         v = C.prefix[k]
         C.path.append((v, t))
+        C.decided[tid] = v
         return v
     pc = C.pc()
     rel = relevant(pc + [t])
@@ -220,12 +227,15 @@ def decide(t, sh=None):
         first = True if sh is None else bool(sh)
         C.path.append((first, t))
         C.pending.append([d for d, _ in C.path[:-1]] + [not first])
+        C.decided[tid] = first
         return first
     if rT == 'sat':
-        C.path.append((True, t))
+        C.path.append((True, t))      # implied decisions stay on the path: replay alignment
+        C.decided[tid] = True
         return True
     if rF == 'sat':
         C.path.append((False, t))
+        C.decided[tid] = False
         return False
     raise Infeasible('path condition became unsatisfiable')
 
@@ -279,9 +289,10 @@ def _isqrt_frac(c):
 
 
 class R:
-    __slots__ = ('c', '_n', 'd', 'tag', 'sh')
+    __slots__ = ('c', '_n', 'd', 'tag', 'sh', 'closed')
 
     def __init__(self, n=None, d=None, c=None, tag=None, sh=None):
+        self.closed = False      # atom of a constant argument (e.g. sqrt(2)): float() allowed
         self.c = c
         self._n = n
         self.d = d or {}
@@ -568,6 +579,8 @@ class R:
             return self.sh
         if self.c is not None:
             return float(self.c)
+        if self.closed:
+            return self.sh
         raise Unsupported('concretisation (float) of a symbolic real')
 
     def __int__(self):
@@ -748,6 +761,9 @@ def make_atom(kind, arg):
     C.n += 1
     a = z3.Real(f'{kind}!{C.n}')
     atom = R(n=a, sh=sh)
+    atom.closed = arg.c is not None
+    if atom.closed:
+        C.closed_ids.add(a.get_id())
     C.atoms.append((kind, arg, atom))
     C.stats['atoms'] += 1
     d = ATOM_DEFS[kind](a, arg)
@@ -770,14 +786,33 @@ def fresh_real(prefix, sh=None):
 
 # --------------------------------------------------------------------------- queries
 
-def prove_eq(a, b, extra=()):
+def is_closed(r):
+    """a constant expression: no input variables, only atoms of constant arguments"""
+    if r.c is not None:
+        return True
+    return all(i in C.closed_ids for i in vars_of(r.t))
+
+
+APPROX_TOL = Fraction(1, 10**9)
+
+
+def prove_eq(a, b, extra=(), approx=False):
     """('unsat'|'sat'|'unknown', model) for the negated goal  a != b  under the path
-    condition, non-zero assumptions and atom definitions."""
+    condition, non-zero assumptions and atom definitions.  approx: `a` is a float computed
+    by real numpy on a concrete path; equality is then up to 1e-9 (floats are not reals)."""
     a, b = R.lift(a), R.lift(b)
     if a.tag or b.tag:
         return ('unsat' if a.tag == b.tag else 'sat'), None
     if a.c is not None and b.c is not None:
+        if approx:
+            return ('unsat' if abs(a.c - b.c) <= APPROX_TOL * max(1, abs(b.c)) else 'sat'), None
         return ('unsat' if a.c == b.c else 'sat'), None
+    if (a.c is not None and is_closed(b)) or (approx and a.c is not None):
+        # float result of a concrete path vs. exact closed-form value: compare up to tolerance
+        tol = _rv(APPROX_TOL * max(1, abs(a.c)))
+        pc0 = C.pc() + list(extra)
+        goal0 = z3.Or(a.t - b.t > tol, b.t - a.t > tol)
+        return check(pc0 + relevant(pc0 + [goal0]) + [goal0], want_model=True)
     lhs, rhs = _cross(a, b)
     pc = C.pc() + list(extra)
     goal = lhs != rhs
